@@ -457,40 +457,17 @@ unsafe fn do_spawn<F: PreExec>(
     let child_pid = rusl::process::fork()?;
     // From this point we're two processes
     if child_pid == 0 {
-        // Executing as child process
+        // Executing as child process, must never return into the caller's code,
+        // any failure is reported over the cloexec pipe and then the child exits.
         let _ = rusl::unistd::close(read_pipe);
-        if let Some(fd) = theirs.stdin.fd() {
-            rusl::unistd::dup2(fd, STDIN)?;
-        }
-        if let Some(fd) = theirs.stdout.fd() {
-            rusl::unistd::dup2(fd, STDOUT)?;
-        }
-        if let Some(fd) = theirs.stderr.fd() {
-            rusl::unistd::dup2(fd, STDERR)?;
-        }
-        if let Some(cwd) = cwd {
-            rusl::unistd::chdir(cwd)?;
-        }
-        if let Some(uid) = uid {
-            rusl::unistd::setuid(uid)?;
-        }
-        if let Some(gid) = gid {
-            rusl::unistd::setgid(gid)?;
-        }
-        if let Some(pgroup) = pgroup {
-            rusl::unistd::setpgid(0, pgroup)?;
-        }
-        for closure in closures {
-            closure.run()?;
-        }
-        let Err(e) = rusl::process::execve(bin, argv, envp) else {
-            // execve only returns on error.
-            unreachable_unchecked();
-        };
-        let code: [u8; 4] = if let Some(code) = e.code {
+        let Err(e) = setup_child_and_exec(
+            bin, argv, envp, &theirs, closures, cwd, uid, gid, pgroup,
+        );
+        // No os error code is sent as 0
+        let code: [u8; 4] = if let Error::Os { code, .. } = e {
             code.raw().to_be_bytes()
         } else {
-            rusl::process::exit(1)
+            0i32.to_be_bytes()
         };
         let bytes = [
             code[0],
@@ -528,9 +505,17 @@ unsafe fn do_spawn<F: PreExec>(
                     return Err(Error::no_code("Validation on the CLOEXEC pipe failed"));
                 }
 
-                let errno = Errno::new(i32::from_be_bytes(errno.try_into().unwrap_unchecked()));
+                let errno = i32::from_be_bytes(errno.try_into().unwrap_unchecked());
                 process.wait()?;
-                return Err(Error::os("Failed to wait for process", errno));
+                if errno == 0 {
+                    return Err(Error::no_code(
+                        "Child process failed before exec without an os error code",
+                    ));
+                }
+                return Err(Error::os(
+                    "Child process failed before or at exec",
+                    Errno::new(errno),
+                ));
             }
             Err(ref e) if matches!(e.code, Some(Errno::EINTR)) => {}
             Err(_) => {
@@ -544,6 +529,52 @@ unsafe fn do_spawn<F: PreExec>(
             }
         }
     }
+}
+
+/// Runs in the forked child: sets up stdio, cwd, ids and process group, runs the pre-exec closures
+/// and execs. Only returns if one of those steps fails, with that step's error.
+#[inline]
+#[expect(clippy::too_many_arguments)]
+unsafe fn setup_child_and_exec<F: PreExec>(
+    bin: &UnixStr,
+    argv: *const *const u8,
+    envp: *const *const u8,
+    theirs: &ChildPipes,
+    closures: &mut [F],
+    cwd: Option<&UnixStr>,
+    uid: Option<UidT>,
+    gid: Option<GidT>,
+    pgroup: Option<PidT>,
+) -> core::result::Result<core::convert::Infallible, Error> {
+    if let Some(fd) = theirs.stdin.fd() {
+        rusl::unistd::dup2(fd, STDIN)?;
+    }
+    if let Some(fd) = theirs.stdout.fd() {
+        rusl::unistd::dup2(fd, STDOUT)?;
+    }
+    if let Some(fd) = theirs.stderr.fd() {
+        rusl::unistd::dup2(fd, STDERR)?;
+    }
+    if let Some(cwd) = cwd {
+        rusl::unistd::chdir(cwd)?;
+    }
+    if let Some(uid) = uid {
+        rusl::unistd::setuid(uid)?;
+    }
+    if let Some(gid) = gid {
+        rusl::unistd::setgid(gid)?;
+    }
+    if let Some(pgroup) = pgroup {
+        rusl::unistd::setpgid(0, pgroup)?;
+    }
+    for closure in closures {
+        closure.run()?;
+    }
+    let Err(e) = rusl::process::execve(bin, argv, envp) else {
+        // execve only returns on error.
+        unreachable_unchecked();
+    };
+    Err(e.into())
 }
 
 /// Spawns a process with the provided arguments. On no arguments, the binary will be set as the first
